@@ -691,6 +691,24 @@ HIST_OBJS = [
 ]
 
 
+def _define_user_subclass(family, which):
+    """what a user module does when it extends the package: define a subclass (no new code
+    letter, no registration, never instantiated)"""
+    from ciderpress.dft import transform_data as td
+    from ciderpress.dft import xc_evaluator as xe
+    from ciderpress.dft import xc_evaluator2 as xe2
+
+    if family == "map":
+        base = td.ALL_CLASSES[which % len(td.ALL_CLASSES)]
+    elif family == "evaluator":
+        cands = [xe.RBFEvaluator, xe.KernelEvaluator, xe.SplineSetEvaluator, xe.GlobalLinearEvaluator, xe.SpinRBFEvaluator]
+        base = cands[which % len(cands)]
+    else:
+        cands = [xe.MappedXC, xe2.MappedXC2, xe.MappedDFTKernel, xe2.MappedDFTKernel2]
+        base = cands[which % len(cands)]
+    return type("User" + base.__name__, (base,), {"__doc__": "user extension", "__module__": "user_module"})
+
+
 def gen_history(seed, nops=None):
     rng = Rng(derive("fsim-hist", seed))
     nobj = rng.randint(2, 4)
@@ -708,7 +726,12 @@ def gen_history(seed, nops=None):
     n = nops or rng.randint(4, 10)
     npath = rng.randint(1, 3)
     for _ in range(n):
-        c = rng.weighted([("dump", 4), ("load", 4), ("dump_fault", 2), ("redump", 2), ("load_fault", 1), ("short", 2)])
+        c = rng.weighted([("dump", 8), ("load", 8), ("dump_fault", 4), ("redump", 4), ("load_fault", 2), ("short", 4), ("subclass", 1)])
+        if c == "subclass":
+            # user code extends a registered class (a map with clipping, an evaluator with
+            # logging...): defining a class must not change what saved files load to
+            ops.append({"op": "subclass", "which": rng.below(64), "family": rng.choice(["map", "map", "evaluator", "model"])})
+            continue
         oi = rng.below(nobj)
         pi = rng.below(npath)
         op = {"op": c, "obj": oi, "path": pi}
@@ -749,6 +772,11 @@ def exec_history(hist, spec, real_dir=None):
             return True
 
         for step, op in enumerate(hist["ops"]):
+            if op["op"] == "subclass":
+                ck.stats["op_subclass"] += 1
+                ck.dg.add("subclass", op["which"], op["family"])
+                _define_user_subclass(op["family"], op["which"])
+                continue
             ob = objs[op["obj"]]
             kind, fmt = ob["kind"], ob["fmt"]
             # one path namespace per (path index); extension follows the object's format
